@@ -9,12 +9,33 @@ def exc_name(e):
     return type(e).__name__
 
 
+_HERE = __import__("os").path.dirname(__import__("os").path.dirname(__import__("os").path.abspath(__file__)))
+
+
+def raised_in_harness(e):
+    """True when the exception was raised by a frame of /verif code (harness, rigs, models, engine) rather than
+    by the library: an AttributeError because a private attribute the harness reads was renamed, a bug in a
+    model.  Such an exception says nothing about the property."""
+    tb = e.__traceback__
+    last = None
+    while tb is not None:
+        last = tb
+        tb = tb.tb_next
+    if last is None:
+        return False
+    fn = last.tb_frame.f_code.co_filename
+    return fn.startswith(_HERE + __import__("os").sep)
+
+
 def call(fn, *a, **k):
     """Run fn; return ('ok', result) or ('exc', exception).  Engine control
-    exceptions are BaseException and pass through."""
+    exceptions are BaseException and pass through.  An exception raised by harness code itself (not by the
+    library) is not a finding: it ends the path as unsupported (exit 2)."""
     try:
         return "ok", fn(*a, **k)
     except Exception as e:  # noqa
+        if raised_in_harness(e) and not getattr(e, "_from_library", False):
+            raise EngineUnsupported("harness error: %r" % (e,))
         return "exc", e
 
 
